@@ -8,6 +8,13 @@ ls selftest/keepall/*.diff | xargs -P 4 -I{} sh -c '
   out=$(selftest/seedcheck.sh "{}" 2>&1)
   if [ -z "$out" ]; then echo "ok   silent  {}"; else echo "FALSE-ALARM  {}"; echo "$out" | grep FAIL | cut -c1-200 | sed "s/^/      /"; fi' > /tmp/keepall.out
 cat /tmp/keepall.out
+# known, documented false alarms (DESIGN section 22): behaviour-preserving restructurings a sufficient-condition rule
+# cannot prove. They are expected to be reported; one that has become silent should be moved to selftest/keepall/.
+for f in selftest/keepall-open/*.diff; do
+  [ -f "$f" ] || continue
+  out=$(selftest/seedcheck.sh "$f" 2>&1)
+  if [ -z "$out" ]; then echo "NOW-SILENT   $f (move it to selftest/keepall/)"; else echo "open         $f: $(echo "$out" | grep -c FAIL) obligation(s) still reported: $(echo "$out" | grep FAIL | sed 's/^ *FAIL \([A-Z0-9.]*\).*/\1/' | sort -u | tr '\n' ' ')"; fi
+done
 bad=$(grep -c "^FALSE-ALARM" /tmp/keepall.out)
 echo "keepall: $(grep -c '^ok' /tmp/keepall.out) silent, $bad with false alarms"
 [ "$bad" = 0 ]
